@@ -153,7 +153,24 @@ func (h *harness) runRound(round int) {
 		for i := range t.cols {
 			c := &t.cols[i]
 			if (t.isPK(c.id) && !c.autoInc || t.inUnique(c.id)) && chance(rt, "hotCol", 70) {
-				hot[t.name+"."+c.name] = pickV(rt, "hotVal", c.pool)
+				// prefer a value no live row holds: the sessions then race for it
+				used := map[string]bool{}
+				for _, r := range t.rows {
+					if v, ok := r[c.id]; ok {
+						used[v.Key()] = true
+					}
+				}
+				var free []V
+				for _, v := range c.pool {
+					if !used[v.Key()] {
+						free = append(free, v)
+					}
+				}
+				if len(free) > 0 && chance(rt, "hotFree", 75) {
+					hot[t.name+"."+c.name] = pickV(rt, "hotFreeVal", free)
+				} else {
+					hot[t.name+"."+c.name] = pickV(rt, "hotVal", c.pool)
+				}
 			}
 		}
 	}
@@ -317,12 +334,14 @@ func (h *harness) runRound(round int) {
 			if sm := o.soundMust(h.isExcluded); sm != nil {
 				h.failf("session %d committed (tx %d) although, at its place in the commit order, %s violates a constraint (%s): %s", s.id, s.txID, st.text, sm.class, sm.what)
 			}
-			if len(o.musts) > 0 {
+			if h.skipKnown(&o) {
 				// class of a known finding reached through the interleaving: the case ends here
-				h.skipKnown(&o)
 				h.c.Label("case-ended-at-known-finding")
 				h.stop = true
 				return
+			}
+			for _, n := range o.notes {
+				h.c.Label(n)
 			}
 			if o.endTx {
 				h.c.Label("case-ended-reference-cannot-follow")
